@@ -9,6 +9,7 @@ package main
 
 import (
 	"bufio"
+	"bytes"
 	"crypto/sha1"
 	"crypto/tls"
 	"encoding/base64"
@@ -17,6 +18,7 @@ import (
 	"net"
 	"net/http"
 	"os"
+	"strings"
 	"time"
 
 	"github.com/talostrading/sonic"
@@ -372,6 +374,162 @@ func wshsDirect(seed uint64, tier string, args []string, w *bufio.Writer) {
 			}
 			_ = ws.CloseNextLayer()
 		}()
+	}
+
+	// 2e. more histories of a first session that the second session of the same Stream must not notice: it ended inside a
+	// fragmented message; a blocking write failed on a dropped transport (its frame was queued); its response head was very long
+	// (the handshake buffer grew) and the second response arrives in one segment with 6 KB of frames behind it
+	upgradeWith := func(c net.Conn, pad int, trail []byte) bool {
+		req, err := http.ReadRequest(bufio.NewReader(c))
+		if err != nil {
+			return false
+		}
+		h := sha1.Sum([]byte(req.Header.Get("Sec-WebSocket-Key") + "258EAFA5-E914-47DA-95CA-C5AB0DC85B11"))
+		resp := "HTTP/1.1 101 Switching Protocols\r\nUpgrade: websocket\r\nConnection: Upgrade\r\n"
+		for pad > 0 {
+			k := pad
+			if k > 900 {
+				k = 900
+			}
+			resp += "X-Pad: " + strings.Repeat("p", k) + "\r\n"
+			pad -= k
+		}
+		resp += "Sec-WebSocket-Accept: " + base64.StdEncoding.EncodeToString(h[:]) + "\r\n\r\n"
+		_, err = c.Write(append([]byte(resp), trail...))
+		return err == nil
+	}
+	serveWith := func(ln net.Listener, pad int, trail []byte, hold time.Duration) {
+		c, err := ln.Accept()
+		if err != nil {
+			return
+		}
+		defer c.Close()
+		if upgradeWith(c, pad, trail) {
+			time.Sleep(hold)
+		}
+	}
+	if secondSession {
+		histories := []string{"open-fragment", "failed-blocking-write", "long-response-head"}
+		for _, hist := range histories {
+			hist := hist
+			func() {
+				defer func() {
+					if p := recover(); p != nil {
+						fail("rehandshake", "second session after %s panicked: %v", hist, p)
+					}
+				}()
+				ws, err := websocket.NewWebsocketStream(ioc, nil, websocket.RoleClient)
+				if err != nil {
+					return
+				}
+				ln, err := net.Listen("tcp", "127.0.0.1:0")
+				if err != nil {
+					return
+				}
+				defer ln.Close()
+				switch hist {
+				case "open-fragment":
+					go serveWith(ln, 0, []byte{0x01, 0x01, 'a'}, 300*time.Millisecond)
+				case "long-response-head":
+					go serveWith(ln, 20000, nil, 300*time.Millisecond)
+				default:
+					go serveWith(ln, 0, nil, 300*time.Millisecond)
+				}
+				if err := ws.Handshake("ws://" + ln.Addr().String() + "/"); err != nil {
+					return
+				}
+				switch hist {
+				case "open-fragment":
+					if f, err := ws.NextFrame(); err != nil || f.IsFIN() {
+						fail("rehandshake", "first session (%s): the opening fragment was not delivered: %v", hist, err)
+						return
+					}
+					_ = ws.CloseNextLayer()
+				case "failed-blocking-write":
+					_ = ws.CloseNextLayer()
+					_ = ws.Write([]byte("late"), websocket.TypeText)
+					_ = ws.Write([]byte("later"), websocket.TypeText)
+				default:
+					_ = ws.CloseNextLayer()
+				}
+				// second session: 60 text frames of 100 bytes arrive with the response, the client writes two messages back to
+				// back (asynchronously) and closes
+				var trail []byte
+				for i := 0; i < 60; i++ {
+					trail = append(trail, 0x81, 100)
+					trail = append(trail, bytes.Repeat([]byte{byte('A' + i%26)}, 100)...)
+				}
+				ln2, err := net.Listen("tcp", "127.0.0.1:0")
+				if err != nil {
+					return
+				}
+				defer ln2.Close()
+				got := make(chan []wireFrame, 1)
+				go func() {
+					c, err := ln2.Accept()
+					if err != nil {
+						got <- nil
+						return
+					}
+					defer c.Close()
+					if !upgradeWith(c, 0, trail) {
+						got <- nil
+						return
+					}
+					var all []byte
+					buf := make([]byte, 4096)
+					deadline := time.Now().Add(2 * time.Second)
+					for time.Now().Before(deadline) {
+						_ = c.SetReadDeadline(time.Now().Add(50 * time.Millisecond))
+						n, err := c.Read(buf)
+						all = append(all, buf[:n]...)
+						frames, _ := wsParseWire(all)
+						if len(frames) > 0 && frames[len(frames)-1].op == 8 {
+							got <- frames
+							return
+						}
+						if err != nil && !os.IsTimeout(err) {
+							break
+						}
+					}
+					frames, _ := wsParseWire(all)
+					got <- frames
+				}()
+				if err := ws.Handshake("ws://" + ln2.Addr().String() + "/"); err != nil || ws.State() != websocket.StateActive {
+					fail("rehandshake", "handshake of the second session after %s: err=%v state=%v", hist, err, ws.State())
+					<-got
+					return
+				}
+				buf := make([]byte, 256)
+				for i := 0; i < 60; i++ {
+					mt, n, err := ws.NextMessage(buf)
+					if err != nil || mt != websocket.TypeText || n != 100 || buf[0] != byte('A'+i%26) || buf[99] != byte('A'+i%26) {
+						fail("bytes-after-blank-line", "second session after %s: message %d of the 60 that arrived with the response: type=%v n=%d err=%v", hist, i, mt, n, err)
+						<-got
+						return
+					}
+				}
+				d1, d2 := false, false
+				ws.AsyncWrite([]byte("first message of the second session"), websocket.TypeText, func(error) { d1 = true })
+				ws.AsyncWrite([]byte("second message of the second session"), websocket.TypeText, func(error) { d2 = true })
+				deadline := time.Now().Add(time.Second)
+				for !(d1 && d2) && time.Now().Before(deadline) {
+					_ = ioc.RunOneFor(5 * time.Millisecond)
+				}
+				_ = ws.Close(websocket.CloseNormal, "done")
+				frames := <-got
+				var texts []string
+				for _, f := range frames {
+					if f.op == 1 {
+						texts = append(texts, string(f.payload))
+					}
+				}
+				if !d1 || !d2 || len(texts) != 2 || texts[0] != "first message of the second session" || texts[1] != "second message of the second session" {
+					fail("rehandshake", "second session after %s: two AsyncWrite calls back to back (callbacks ran: %v %v) put %d frames on the wire, text payloads %q", hist, d1, d2, len(frames), texts)
+				}
+				_ = ws.CloseNextLayer()
+			}()
+		}
 	}
 
 	// 3. AsyncHandshake whose upgrade is refused (the server answers 400 and keeps the connection): the completion is posted to the
